@@ -829,6 +829,13 @@ class Machine:
             h = getattr(self.world, "str_variant", None)
             if h is not None and isinstance(v, Str):
                 return I(h(st, v, rv), "isize")
+            if isinstance(v, Opq) and v.kind == "uf" and rv.get("variants"):
+                # the enum-valued result of an uninterpreted function: one answer per term and path
+                names = [nm for _i, _d, nm in rv["variants"]]
+                ans = st.choose(("uf-variant", v.data), names)
+                for _i, discr, nm in rv["variants"]:
+                    if nm == ans:
+                        return I(discr, "isize")
             raise AnalysisError("discriminant of %r" % (v,))
         if k == "binop":
             a = self.operand(st, fr, rv["a"])
